@@ -76,3 +76,26 @@ PROPS["C18"] = {
                     "time.Duration arithmetic does not saturate (|now - timestamp| < 2^63 ns)",
                     "handlers registered on timeCacher (RegisterHandler) are not modelled"],
 }
+
+PROPS["C16"] = {
+    "runs": [{"component": "unit", "labels": None, "n_quick": 2000, "n_thorough": 20000}],
+    "extras": [{"component": "unit", "timeout": 600}],
+    "anchors": ["storageUnit/storageunit.go", "factory/storageUnit.go", "factory/cache.go", "factory/db.go"],
+    "exhaustive_claim": True,
+    "rule": "exhaustive: every sequence of <= 3 (quick) / 4 (thorough) of nine operations on two keys (Put k1 v1, Put k1 v2, Put k2 v1, Get k1, Get k2, "
+            "Has k1, Remove k1, ClearCache, GetBulkFromEpoch[k1,k2]), with no failure or exactly one failing persister call at every position, for LRU cap 1, "
+            "SizeLRU cap 1, FIFOSharded cap 2; plus every sequence of exactly 4 (quick) / 5 (thorough) for LRU cap 1. random: 12-30 ops over 3-5 keys, 2-4 values "
+            "(a 520-byte value for SizeLRU so that the 1024-byte capacity evicts), capacities 1-3, every cacher kind of factory.NewCache, memorydb (90%) / LevelDB / "
+            "serial LevelDB persisters built by factory.NewDB behind a stub failing Put/Get/Has/Remove on the per-operation oracle (a failure every 4..12 calls), "
+            "aliases PutInEpoch/GetFromEpoch/SearchFirst/RemoveFromCurrentEpoch, cold reads. Non-trivial = hits a recorded situation (eviction, cache-miss-refill, "
+            "failed-put(-over-cached-value), failed-remove, failed-get/has, overwrite, clear-cache, bulk-swallowed-read-error ...). "
+            "extra: factory guard grid (see extra_checks.rule)",
+    "explanation": "Theorems (Props/C16.v) hold for ANY cacher satisfying cacher_laws, all histories, all failure oracles. Correspondence compares only "
+                   "policy-independent observables (Get/Has/Bulk answers, error classes of Put/Remove, direct persister reads per key), so the executable model "
+                   "(SmallCache) stands for every lawful cacher; monitors evaluate the property text with direct reads of the injected cacher and persister.",
+    "assumptions": ["a failing persister call has no effect (stub fails before reaching the persister)",
+                    "callers do not mutate slices passed to Put or returned by Get (the unit caches and returns them by reference; LevelDB copies)",
+                    "sequential use (concurrency is C14); non-empty keys, non-nil non-empty values",
+                    "LRU / SizeLRU / FIFOSharded satisfy cacher_laws (validated here differentially; instances proved where Props/C16.v says so)",
+                    "GetBulkFromEpoch omits (with a nil error) a key whose persister read failed: 'found' is read as 'the read succeeded' (C16_bulk guard; unguarded reading refuted by witness)"],
+}
